@@ -109,7 +109,9 @@ class GeometricMTF(SpotDiagram):
 
         mtf = []  # TODO: add option for polychromatic MTF
         for field_data in self.data:
-            xi, yi = field_data[0][0], field_data[0][1]
+            xi, yi, intensity = field_data[0]
+            # rays blocked by an aperture do not reach the image
+            xi, yi = xi[intensity != 0], yi[intensity != 0]
             mtf.append([self._compute_field_data(yi, self.freq, scale_factor),
                         self._compute_field_data(xi, self.freq, scale_factor)])
         return mtf, scale_factor
